@@ -46,6 +46,7 @@ type c07RProbe struct {
 	Link   string `json:"link"`
 	Host   string `json:"host"`   // node: AddressHost (control host); sub: taken from the link by the code
 	Lookup string `json:"lookup"` // the host name the wrapped dialer is asked to resolve
+	Net    string `json:"net"`    // network of the family-aware lookup: tcp udp tcp4 udp4 tcp6 udp6
 }
 type c07RCase struct {
 	Ups      []string    `json:"ups"`
@@ -61,7 +62,9 @@ type c07RProbeRes struct {
 	Wrapped  bool        `json:"wrapped"`
 	DName    string      `json:"d_name"`
 	DControl string      `json:"d_control"`
-	Plan     string      `json:"plan"` // up:<i> | base | bootstrap | err:<text> | unwrapped
+	Plan     string      `json:"plan"` // first resolver asked by a tcp4 lookup: up:<i> | base | bootstrap | err:<text> | unwrapped
+	Sent     [][2]int    `json:"sent"` // lookup on Net: the questions that reached an upstream, (qtype, upstream), in order
+	By       string      `json:"by"`   // lookup on Net: who produced the result: up | base | bootstrap | err:<text>
 	Hits     [][2]string `json:"hits"` // (field "1" tag/subtag, "2" name, "3" link; pattern) pairs that match
 	QHits    []string    `json:"qhits"`
 	Panic    string      `json:"panic,omitempty"`
@@ -167,6 +170,7 @@ func c07RunR(cs *c07RCase) (res c07RResult) {
 	}
 	var mu sync.Mutex
 	var asked []int
+	var askedQ [][2]int
 	origSend := sendHTTPDNSFunc
 	defer func() { sendHTTPDNSFunc = origSend }()
 	sendHTTPDNSFunc = func(ctx context.Context, client *http.Client, target string, upstream *componentdns.Upstream, data []byte) (*dnsmessage.Msg, error) {
@@ -176,25 +180,35 @@ func c07RunR(cs *c07RCase) (res c07RResult) {
 			code = -1
 		}
 		asked = append(asked, code)
-		mu.Unlock()
 		var q dnsmessage.Msg
 		if err := q.Unpack(data); err != nil {
+			mu.Unlock()
 			return nil, err
 		}
+		qt := 0
+		if len(q.Question) > 0 {
+			qt = int(q.Question[0].Qtype)
+		}
+		askedQ = append(askedQ, [2]int{qt, code})
+		mu.Unlock()
 		m := &dnsmessage.Msg{}
 		m.SetReply(&q)
 		if len(q.Question) > 0 {
-			m.Answer = []dnsmessage.RR{&dnsmessage.A{Hdr: dnsmessage.RR_Header{Name: q.Question[0].Name, Rrtype: dnsmessage.TypeA, Class: dnsmessage.ClassINET, Ttl: 60}, A: net.IPv4(192, 0, 2, 55)}}
+			if qt == int(dnsmessage.TypeAAAA) {
+				m.Answer = []dnsmessage.RR{&dnsmessage.AAAA{Hdr: dnsmessage.RR_Header{Name: q.Question[0].Name, Rrtype: dnsmessage.TypeAAAA, Class: dnsmessage.ClassINET, Ttl: 60}, AAAA: net.ParseIP("2001:db8::55")}}
+			} else {
+				m.Answer = []dnsmessage.RR{&dnsmessage.A{Hdr: dnsmessage.RR_Header{Name: q.Question[0].Name, Rrtype: dnsmessage.TypeA, Class: dnsmessage.ClassINET, Ttl: 60}, A: net.IPv4(192, 0, 2, 55)}}
+			}
 		}
 		return m, nil
 	}
 	for _, p := range cs.RProbes {
-		res.RProbes = append(res.RProbes, c07RProbe1(router, cs, p, &mu, &asked))
+		res.RProbes = append(res.RProbes, c07RProbe1(router, cs, p, &mu, &asked, &askedQ))
 	}
 	return res
 }
 
-func c07RProbe1(router *Router, cs *c07RCase, p c07RProbe, mu *sync.Mutex, asked *[]int) (pr c07RProbeRes) {
+func c07RProbe1(router *Router, cs *c07RCase, p c07RProbe, mu *sync.Mutex, asked *[]int, askedQ *[][2]int) (pr c07RProbeRes) {
 	defer func() {
 		if r := recover(); r != nil {
 			pr.Panic = fmt.Sprint(r)
@@ -253,6 +267,36 @@ func c07RProbe1(router *Router, cs *c07RCase, p c07RProbe, mu *sync.Mutex, asked
 		pr.Plan = "err:" + lerr.Error()
 	default:
 		pr.Plan = fmt.Sprintf("err:unclassified upstream=%v base=%d ips=%d", got, nb, len(ips))
+	}
+	// the family-aware lookup: one question per requested family
+	netw := p.Net
+	if netw == "" {
+		netw = "tcp"
+	}
+	mu.Lock()
+	*askedQ = nil
+	mu.Unlock()
+	base.mu.Lock()
+	base.calls = nil
+	base.mu.Unlock()
+	ips2, lerr2 := rd.LookupIPAddr(context.Background(), netw, p.Lookup)
+	mu.Lock()
+	pr.Sent = append([][2]int{}, (*askedQ)...)
+	mu.Unlock()
+	base.mu.Lock()
+	nb2 := len(base.calls)
+	base.mu.Unlock()
+	switch {
+	case lerr2 != nil && strings.Contains(lerr2.Error(), "bootstrap resolver is not configured") && nb2 == 0:
+		pr.By = "bootstrap"
+	case lerr2 != nil:
+		pr.By = "err:" + lerr2.Error()
+	case nb2 > 0:
+		pr.By = "base"
+	case len(pr.Sent) > 0 && len(ips2) == len(pr.Sent):
+		pr.By = "up"
+	default:
+		pr.By = fmt.Sprintf("err:unclassified sent=%v base=%d ips=%d", pr.Sent, nb2, len(ips2))
 	}
 	return pr
 }
